@@ -30,6 +30,7 @@ def build_service(rec, behaviours=None):
     """Returns a fresh Service subclass. `behaviours` may carry callables the
     user functions consult (fault injection from the harness)."""
     from spyne import Service, rpc, Integer, Unicode, ByteArray, Iterable, Fault, ComplexModel, Array
+    from spyne.model.complex import XmlAttribute
     from spyne.error import (RequestTooLongError, ResourceNotFoundError, RequestNotAllowed,
                              InvalidCredentialsError)
     beh = behaviours if behaviours is not None else {}
@@ -38,6 +39,7 @@ def build_service(rec, behaviours=None):
         __namespace__ = TNS
         a = Integer
         b = Unicode
+        tag = XmlAttribute(Unicode)
 
     class MiniService(Service):
         @rpc(Integer, _returns=Integer)
